@@ -4,6 +4,7 @@ import (
 	"fmt"
 	"os"
 	"path"
+	"sync"
 	"sync/atomic"
 
 	"github.com/pkg/errors"
@@ -43,7 +44,15 @@ func (fs DirFs) Create(dir, fname string) (f File, ok bool) {
 	return File(fd), true
 }
 
+// appendMu makes an Append atomic for the readers of this process. The kernel
+// publishes the growing size of a file piece by piece while a large write is
+// in progress, so a ReadAt running at the same time would return part of one
+// append.
+var appendMu sync.RWMutex
+
 func (fs DirFs) Append(f File, data []byte) {
+	appendMu.Lock()
+	defer appendMu.Unlock()
 	n, err := unix.Write(f.fd(), data)
 	if err != nil {
 		panic(err)
@@ -74,6 +83,8 @@ func (fs DirFs) ReadAt(f File, offset uint64, length uint64) []byte {
 	// range is cut down to the file first: an offset or an end beyond what
 	// pread's signed arguments can express would be refused by the kernel, and
 	// the buffer need not be larger than the file.
+	appendMu.RLock()
+	defer appendMu.RUnlock()
 	var st unix.Stat_t
 	if err := unix.Fstat(f.fd(), &st); err != nil {
 		panic(err)
